@@ -267,6 +267,7 @@ class _Walker:
         new = _Subst(env).visit(e)
         new = _Fuse().visit(new)  # a comprehension over a substituted comprehension
         new = _DistributeCall().visit(new)  # (f if c else g)(x)  ->  f(x) if c else g(x)
+        new = _QuantNorm().visit(new)
         self._tag(new)
         return new
 
@@ -409,8 +410,18 @@ class _Walker:
                     out[k] = a
                 else:
                     out[k] = ast.IfExp(test=copy.deepcopy(t), body=a, orelse=b)
-            # the two branch conditions may have grown (a nested branch returned): keep the common prefix only
-            return out, cond
+            # a nested branch may have left (return / raise): what holds afterwards is
+            #   (t and <what the then-arm established>) or (not t and <what the else-arm established>)
+            x1, x2 = r1[1][len(cond) + 1:], r2[1][len(cond) + 1:]
+            if not x1 and not x2:
+                return out, cond
+
+            def conj(first: ast.AST, extras) -> ast.AST:
+                parts = [first] + [e if pol else ast.UnaryOp(op=ast.Not(), operand=e) for e, pol in extras]
+                return parts[0] if len(parts) == 1 else ast.BoolOp(op=ast.And(), values=parts)
+
+            both = ast.BoolOp(op=ast.Or(), values=[conj(copy.deepcopy(t), x1), conj(ast.UnaryOp(op=ast.Not(), operand=copy.deepcopy(t)), x2)])
+            return out, cond + ((both, True),)
         if isinstance(st, (ast.For, ast.AsyncFor, ast.While)):
             self.loops += 1
             k = self.loops
@@ -441,7 +452,7 @@ class _Walker:
             for n, (sym, pre) in carried.items():
                 if endb is not None:
                     post = endb[0].get(n)
-                    if post is not None and not (isinstance(post, ast.Name) and post.id == sym.id):
+                    if post is not None and not (isinstance(post, ast.Name) and post.id == sym.id) and _true_recurrence(post, sym.id):
                         self.flow.effects.append(Eff(inner, "carry", ast.Assign(targets=[copy.deepcopy(sym)], value=post), st))
                         if pre is not None:
                             self.flow.effects.append(Eff(cond, "carry", ast.Assign(targets=[_name(sym.id + ".init")], value=pre), st))
@@ -604,6 +615,19 @@ class _Walker:
             raise AnalysisError(f"symflow: unsupported assignment target {type(t).__name__} at {self.fn.loc(st)}")
 
 
+class _QuantNorm(ast.NodeTransformer):
+    """all(P for ..)  ->  not any(not P for ..)   (one quantifier survives)"""
+
+    def visit_Call(self, n: ast.Call):
+        self.generic_visit(n)
+        if isinstance(n.func, ast.Name) and n.func.id == "all" and len(n.args) == 1 and not n.keywords \
+                and isinstance(n.args[0], (ast.GeneratorExp, ast.ListComp)):
+            g = copy.copy(n.args[0])
+            g.elt = ast.UnaryOp(op=ast.Not(), operand=g.elt)
+            return ast.UnaryOp(op=ast.Not(), operand=ast.Call(func=ast.Name(id="any", ctx=ast.Load()), args=[g], keywords=[]))
+        return n
+
+
 class _DistributeCall(ast.NodeTransformer):
     def visit_Call(self, n: ast.Call):
         self.generic_visit(n)
@@ -618,6 +642,21 @@ def _chain_root(n: ast.AST) -> str:
     while isinstance(n, (ast.Attribute, ast.Subscript)):
         n = n.value
     return n.id if isinstance(n, ast.Name) else ""
+
+
+def _true_recurrence(post: ast.AST, sym: str) -> bool:
+    """The value a loop-carried local has after one iteration depends on its value before it in more than the trivial
+    way `new if c else <unchanged>` (a conditional assignment of iteration-local data is not a recurrence)."""
+    def strip(e: ast.AST) -> list:
+        if isinstance(e, ast.IfExp):
+            return strip(e.body) + strip(e.orelse)
+        return [e]
+    for leaf in strip(post):
+        if isinstance(leaf, ast.Name) and leaf.id == sym:
+            continue
+        if any(isinstance(n, ast.Name) and n.id == sym for n in ast.walk(leaf)):
+            return True
+    return False
 
 
 def _plain_chain(n: ast.AST) -> bool:
